@@ -27,6 +27,11 @@ struct State {
     cs_owner: Option<(String, &'static str, u64)>,
     cs_overlaps: Vec<String>,
     cs_sections: u64,
+    /// keyspace-dictionary exclusivity monitor: threads applying a batch (between `batch.journaled` and
+    /// `batch.before_publish`: the dictionary's read lock is held) and threads inside the meta keyspace's
+    /// maintenance (called with the dictionary's write lock held by create/delete keyspace)
+    dict_batch: Vec<String>,
+    dict_maint: Vec<String>,
     /// extra delay (microseconds) at one named point
     named_delay: Option<(&'static str, u64)>,
 }
@@ -121,6 +126,41 @@ fn handler(name: &'static str, arg: u64) {
                 if st.cs_owner.as_ref().is_some_and(|(o, _, _)| *o == me) {
                     st.cs_owner = None;
                 }
+            }
+        }
+        if CS_MONITOR.load(Ordering::Relaxed) {
+            match name {
+                "batch.journaled" => {
+                    let me = thread_name();
+                    if let Some(m) = st.dict_maint.first().cloned() {
+                        if st.cs_overlaps.len() < 5 {
+                            st.cs_overlaps.push(format!(
+                                "thread {me} applies batch {arg} (keyspace dictionary read-locked) while thread {m} is inside the meta keyspace maintenance of a keyspace creation/deletion, which runs under the dictionary's write lock: the two critical sections overlap"
+                            ));
+                        }
+                    }
+                    st.dict_batch.push(me);
+                }
+                "batch.before_publish" => {
+                    let me = thread_name();
+                    st.dict_batch.retain(|x| *x != me);
+                }
+                "meta.maintenance.begin" => {
+                    let me = thread_name();
+                    if let Some(b) = st.dict_batch.first().cloned() {
+                        if st.cs_overlaps.len() < 5 {
+                            st.cs_overlaps.push(format!(
+                                "thread {me} entered the meta keyspace maintenance of a keyspace creation/deletion while thread {b} is applying a batch under the keyspace dictionary's read lock: the two critical sections overlap"
+                            ));
+                        }
+                    }
+                    st.dict_maint.push(me);
+                }
+                "meta.maintenance.end" => {
+                    let me = thread_name();
+                    st.dict_maint.retain(|x| *x != me);
+                }
+                _ => {}
             }
         }
         if st.probe.is_some() {
@@ -364,6 +404,8 @@ pub fn cs_monitor(on: bool) {
     st.cs_owner = None;
     st.cs_overlaps.clear();
     st.cs_sections = 0;
+    st.dict_batch.clear();
+    st.dict_maint.clear();
     CS_MONITOR.store(on, Ordering::SeqCst);
 }
 
@@ -373,6 +415,8 @@ pub fn cs_take() -> (u64, Vec<String>) {
     let g = global();
     let mut st = g.st.lock().unwrap_or_else(|e| e.into_inner());
     st.cs_owner = None;
+    st.dict_batch.clear();
+    st.dict_maint.clear();
     (std::mem::take(&mut st.cs_sections), std::mem::take(&mut st.cs_overlaps))
 }
 
